@@ -16,8 +16,16 @@ def ubsan_sites(stderr):
         kind = m.group(3).split(':')[0]
         kind = re.sub(r' \(aka [^)]*\)', '', re.sub(r'index -?\d+', 'index N', kind))     # the first offending index is incidental
         sites.add(('%s:%s:%s' % (f, fn, kind), m.group(3)[:160], '%s:%s' % (m.group(1), m.group(2))))
-    for m in re.finditer(r'ERROR: AddressSanitizer: (\S+)[^\n]*\n(?:[^\n]*\n){0,4}?\s+#0 \S+ in ([^\n]*?) (/[^\s:]+):(\d+)', stderr):
-        sites.add(('%s:%s:asan-%s' % (os.path.basename(m.group(3)), re.sub(r'\(.*', '', m.group(2)).replace('ace_time::', ''), m.group(1)), m.group(1), '%s:%s' % (m.group(3), m.group(4))))
+    # every AddressSanitizer report: identified by its kind and the first frame that has a source position (frame #0 is often
+    # an interceptor such as strlen, which has none)
+    for blk in re.split(r'(?=ERROR: AddressSanitizer: )', stderr)[1:]:
+        kind = re.match(r'ERROR: AddressSanitizer: (\S+)', blk).group(1)
+        body = blk.split('SUMMARY:')[0]
+        fr = re.search(r'#\d+ \S+ in ([^\n]*?) (/[^\s:()]+):(\d+)', body)
+        if fr:
+            sites.add(('%s:%s:asan-%s' % (os.path.basename(fr.group(2)), re.sub(r'\(.*', '', fr.group(1)).replace('ace_time::', ''), kind), kind, '%s:%s' % (fr.group(2), fr.group(3))))
+        else:
+            sites.add(('unknown:asan-%s' % kind, kind, 'no source frame'))
     return sites
 
 
